@@ -582,6 +582,7 @@ unsafe fn cb_arc_b(a: &Arc<TB>, acts: &[&str], acc: &mut String, wp: *mut World)
 fn main() {
     quiet_panics();
     let mut w = World::new();
+    let mut pending_fail: i64 = -1;
     let stdin = std::io::stdin();
     let out = std::io::stdout();
     let mut out = std::io::BufWriter::new(out.lock());
@@ -601,11 +602,21 @@ fn main() {
             out.flush().unwrap();
             continue;
         }
+        if let Some(k) = line.strip_prefix("failalloc ") {
+            // fault injection: the k-th (0-based) allocation made inside the library during the NEXT op fails
+            pending_fail = k.trim().parse::<i64>().unwrap_or(-1);
+            writeln!(out, "failalloc armed").unwrap();
+            out.flush().unwrap();
+            continue;
+        }
         let f: Vec<&str> = line.split(' ').collect();
         take_events();
+        fail_alloc_at(pending_fail);
+        pending_fail = -1;
         set_recording(false);
         let r = catch_unwind(AssertUnwindSafe(|| run_op(&mut w, &f)));
         set_recording(false);
+        fail_alloc_at(-1);
         let (status, outs) = match r {
             Ok(St::Ok(o)) => ("ok".to_string(), o),
             Ok(St::Bad) => ("bad-op".to_string(), String::new()),
